@@ -50,6 +50,13 @@ REQUIRED = ["nollN_spec", "nollN_unique", "zernIndex_valid", "nollOf_zernIndex",
 
 RT = 1e-9
 EPS = 2.0 ** -52
+WORST = {}
+
+
+def _worst(name, v):
+    WORST[name] = max(WORST.get(name, 0.0), float(v))
+
+
 GRAM_C = 1.0      # |Gram - I| <= GRAM_C·(n_max+1)/N; observed on the clean tree: <= 0.63 (all N in 24..140, 200..512, J <= 45, any rot)
 
 
@@ -111,19 +118,39 @@ def apis():
 def as_int(rng, v, wide=True):
     """the same integer as a Python int or one of numpy's integer scalars (all are 'int' to a caller)"""
     kinds = [int, numpy.int64, numpy.intp] + ([numpy.int32] if (not wide or abs(v) < 2 ** 26) else [])
+    if v >= 0:                                                   # round 5: unsigned scalars (uint32 below 2^26: 8(j-1)+1 must fit)
+        kinds += [numpy.uint64] + ([numpy.uint32] if (not wide or v < 2 ** 26) else [])
     return rng.choice(kinds)(v)
+
+
+def as_count(rng, v):
+    """a count / size as any integer scalar or (round 5) a 0-d integer array"""
+    return numpy.array(v) if rng.random() < 0.12 else as_int(rng, v)
 
 
 def as_list(rng, js):
     """an index list as list / tuple / numpy integer array"""
-    k = rng.randrange(4)
+    k = rng.randrange(7)
     if k == 0:
         return list(js)
     if k == 1:
         return tuple(js)
     if k == 2:
         return numpy.array(js, dtype=numpy.int64)
-    return [as_int(rng, j) for j in js]
+    if k == 3:
+        return [as_int(rng, j) for j in js]
+    if k == 4:                                                   # round 5: other integer dtypes
+        return numpy.array(js, dtype=rng.choice([numpy.int32, numpy.uint32, numpy.uint64, numpy.int16, numpy.uint16]))
+    if k == 5:                                                   # round 5: a strided / reversed view of a larger array
+        big = numpy.zeros(2 * len(js) + 1, dtype=numpy.int64)
+        if rng.random() < 0.5:
+            big[1::2] = js
+            return big[1::2]
+        big[1::2] = js[::-1]
+        return big[1::2][::-1]
+    a = numpy.array(js, dtype=numpy.int64)                       # round 5: read-only
+    a.setflags(write=False)
+    return a
 
 
 def coef_abs_sum(n, m):
@@ -435,7 +462,7 @@ def oracle(chk, quick):
     for _ in range(1500 if quick else 30000):
         j = rng.choice([rng.randint(1, 300), rng.randint(1, 2 ** 26 - 1)])
         api, A = rng.choice(APIS)
-        jj = rng.choice([numpy.int64, numpy.int32, numpy.intp])(j)
+        jj = rng.choice([numpy.int64, numpy.int32, numpy.intp, numpy.uint32, numpy.uint64, numpy.array])(j)   # round 5: unsigned, 0-d array
         chk.oracle_cases += 1
         chk.count("oracle:noll:%s:%s" % (api, type(jj).__name__))
         with numpy.errstate(all="ignore"):
@@ -483,16 +510,34 @@ def oracle(chk, quick):
         chk.case(("oracle", "grid", N, norm, rot, J, tuple(js)), sample={"N": N, "norm": norm, "rot": rot, "J": J, "list": js} if it < 2 else None)
         api, A = rng.choice(APIS)                                   # module / sub-package / package-level spelling
         chk.count("oracle:api:%s" % api)
-        Jc, Nc = as_int(rng, J), as_int(rng, N)                     # Python int or a numpy integer scalar
+        Jc, Nc = as_count(rng, J), as_count(rng, N)                 # Python int, a numpy integer scalar or a 0-d integer array
         chk.count("oracle:int-type:%s" % type(Jc).__name__)
-        rep = {"N": N, "norm": norm, "rot": rot, "J": J, "list": js, "api": api, "J_type": type(Jc).__name__, "N_type": type(Nc).__name__}
+        how = rng.randrange(3)                                      # round 5: keywords / positional / defaults left out
+        chk.count("oracle:spelling:%s" % ["keywords", "positional", "defaults-omitted"][how])
+        rep = {"N": N, "norm": norm, "rot": rot, "J": J, "list": js, "api": api, "J_type": type(Jc).__name__, "N_type": type(Nc).__name__,
+               "spelling": ["f(a, N, norm=norm, rot=rot)", "f(a, N, norm, rot)", "f(a, N[, norm=…][, rot=…]) with default-valued arguments left out"][how]}
         jl = as_list(rng, js)
+        chk.count("oracle:index-list:%s" % (type(jl).__name__ + (":" + str(jl.dtype) + ("" if jl.flags.c_contiguous and jl.flags.writeable else ":view/ro")
+                                                                  if isinstance(jl, numpy.ndarray) else "")))
         jl_before = [int(t) for t in jl]
+
+        def spelled(fn, a, n_):
+            if how == 0:
+                return fn(a, n_, norm=norm, rot=rot)
+            if how == 1:
+                return fn(a, n_, norm, rot)
+            kw = {}
+            if norm != "noll":
+                kw["norm"] = norm
+            if rot != 0:
+                kw["rot"] = rot
+            return fn(a, n_, **kw)
         with numpy.errstate(all="ignore"):
             # the un-normalised modes, one by one and BEFORE any normalised call (only used to recognise degenerate modes)
-            raw = numpy.array([A.zernike_noll(as_int(rng, j), Nc, rot) for j in range(1, J + 1)])
-            full = A.zernikeArray(Jc, Nc, norm=norm, rot=rot)
-            sub = A.zernikeArray(jl, Nc, norm=norm, rot=rot)
+            raw = numpy.array([(A.zernike_noll(as_int(rng, j), Nc, rot) if (rot != 0 or how != 2) else A.zernike_noll(as_int(rng, j), Nc))
+                               for j in range(1, J + 1)])
+            full = spelled(A.zernikeArray, Jc, Nc)
+            sub = spelled(A.zernikeArray, jl, Nc)
         if [int(t) for t in jl] != jl_before or jl_before != js:
             chk.fail("pure:index-list", "zernikeArray modified its index list argument", rep)
         if full.shape != (J, N, N) or sub.shape != (len(js), N, N):
@@ -508,6 +553,21 @@ def oracle(chk, quick):
                     chk.fail("vanish-outside:%s" % norm, "zernikeArray(%d,%d,%s,rot=%r)[%d] is non-zero outside the pupil (max %r)"
                              % (J, N, norm, rot, z, float(abs(vals).max())), dict(rep, mode=z + 1))
                     break
+        # round 5 — the array is the stack of the single modes (zernike_noll with the same size and rotation), normalised as asked:
+        # bit-identical under Noll normalisation (a copy), divided by the mode's own p2v / rms otherwise
+        npup = int((~outside).sum())
+        for z in range(J):
+            if float(raw[z].max() - raw[z].min()) < 1e-6 and norm != "noll":
+                continue
+            with numpy.errstate(all="ignore"):
+                exp = (raw[z] if norm == "noll" else raw[z] / (raw[z].max() - raw[z].min()) if norm == "p2v" else
+                       raw[z] / numpy.sqrt((raw[z] ** 2).sum() / npup))
+            d = maxdiff(full[z], exp)
+            _worst("array-eq-modes", d / max(1.0, float(abs(exp).max())))
+            if not (numpy.array_equal(full[z], exp) if norm == "noll" else d <= 1e-12 * max(1.0, float(abs(exp).max()))):
+                chk.fail("array-eq-modes:%s" % norm, "zernikeArray(%d,%d,%s,rot=%r)[%d] is not zernike_noll(%d,%d,rot=%r)%s (max difference %r)"
+                         % (J, N, norm, rot, z, z + 1, N, rot, "" if norm == "noll" else " divided by its own " + norm, d), dict(rep, mode=z + 1))
+                break
         # list = slices of count
         for t, j in enumerate(js):
             a, b = sub[t], full[j - 1]
@@ -549,7 +609,7 @@ def oracle(chk, quick):
         al = rng.uniform(-3, 3)
         keep = cs.copy()
         with numpy.errstate(all="ignore"):
-            ph = A.phaseFromZernikes(cs, Nc, norm=norm, rot=rot)
+            ph = spelled(A.phaseFromZernikes, cs, Nc)
             ph2 = A.phaseFromZernikes(cs2, N, norm=norm, rot=rot)
             ph3 = A.phaseFromZernikes(list(al * cs + cs2), N, norm=norm, rot=rot)
         if not numpy.array_equal(cs, keep):
@@ -764,8 +824,591 @@ def oracle(chk, quick):
                          % (name, i + 1, name, i, nzrad, errs[i], N), {"nzrad": nzrad, "N": N, "mode": i + 1, "axis": name, "err": errs[i]})
 
 
+# ----------------------------------------------------------------------------------------------- round 5: generator audit
+# An oracle-side reference of a mode that shares nothing with the module under test: exact integer coefficients of R_n^m,
+# pixel coordinates (2i+1-N)/N, the pupil in exact integer geometry, the Noll constants.
+R5_MODE_EPS = 256.0       # |mode - reference| <= R5_MODE_EPS·eps·c·Σ|c_i| r^(n-2i) per pixel; observed on the clean tree <= 0.90 (20 quick seeds, 2 thorough runs): margin 280x
+R5_RADIAL_EPS = 128.0     # |zernikeRadialFunc - exact rational value| <= R5_RADIAL_EPS·eps·Σ|c_i| r^(n-2i); observed <= 1.43: margin 90x
+R5_GAMMA_TOL = 1e-5       # analytic gradient vs Σ gamma·modes, relative to max(1, max|gamma|·max|mode|); observed <= 1.6e-7 (float32 storage) to nzrad 24: margin 60x
+
+
+def nm_of_noll(j):
+    """(n, m) of Noll index j in integer arithmetic (oracle-side twin of the Lean `zernIndex`)"""
+    n = (math.isqrt(8 * (j - 1) + 1) - 1) // 2
+    p = j - tri(n)                       # 1 .. n+1
+    k = n % 2
+    a = ((p + k) // 2) * 2 - k
+    return n, (0 if a == 0 else (a if j % 2 == 0 else -a))
+
+
+def ref_coefs(n, a):
+    """the integer coefficients c_i of R_n^a(r) = Σ_i c_i r^(n-2i)"""
+    return [(-1) ** i * (math.factorial(n - i) // (math.factorial(i) * math.factorial((n + a) // 2 - i) * math.factorial((n - a) // 2 - i)))
+            for i in range((n - a) // 2 + 1)]
+
+
+def ref_mode(n, m, N, rot=0.0):
+    """(mode, per-pixel size of the terms that are added up) on the N-grid, Noll normalisation"""
+    a = abs(m)
+    idx = 2 * numpy.arange(N) + 1 - N
+    X, Y = numpy.meshgrid(idx / float(N), idx / float(N))
+    inside = (idx[None, :] ** 2 + idx[:, None] ** 2) <= N * N
+    r = numpy.sqrt(X ** 2 + Y ** 2)
+    R, S = numpy.zeros((N, N)), numpy.zeros((N, N))
+    for i, c in enumerate(ref_coefs(n, a)):
+        t = float(c) * r ** (n - 2 * i)
+        R += t
+        S += abs(t)
+    c = math.sqrt(n + 1) if m == 0 else math.sqrt(2 * (n + 1))
+    th = numpy.arctan2(Y, X)
+    trig = 1.0 if m == 0 else (numpy.cos(a * th + rot) if m > 0 else numpy.sin(a * th + rot))
+    return c * R * trig * inside, c * S * inside + 1e-300, inside
+
+
+def ref_normalised(j, N, norm, rot):
+    """reference of zernikeArray([j], N, norm, rot)[0], its error scale, and whether the normalisation is defined"""
+    n, m = nm_of_noll(j)
+    Zr, S, inside = ref_mode(n, m, N, float(rot))
+    if norm == "p2v":
+        d = float(Zr.max() - Zr.min())
+    elif norm == "rms":
+        d = math.sqrt(float((Zr ** 2).sum()) / int(inside.sum()))
+    else:
+        d = 1.0
+    if not d > 1e-6:
+        return None, None, False
+    if norm == "noll":
+        return Zr, S, True
+    # the divisor itself carries the rounding error of the pixels it is made of (relative size max(S)/d): every pixel inherits it
+    return Zr / d, S / d + numpy.abs(Zr / d) * (2.0 * float(S.max()) / d), True
+
+
+def modes_match(arr, js, N, norm, rot, mult=R5_MODE_EPS):
+    """None if arr[t] is mode js[t] (normalised as asked) to rounding, else (position, max error in units of eps·scale); degenerate modes skipped"""
+    if numpy.shape(arr) != (len(js), N, N):
+        return (-1, float("inf"))
+    for t, j in enumerate(js):
+        ref, S, ok = ref_normalised(int(j), N, norm, rot)
+        if not ok:
+            continue
+        with numpy.errstate(all="ignore"):
+            e = numpy.abs(numpy.asarray(arr[t], dtype=float) - ref) / (EPS * S + 1e-15 * float(abs(ref).max()))
+        e = float(numpy.nanmax(numpy.where(numpy.isfinite(e), e, numpy.inf)))
+        _worst("mode-vs-reference (eps·scale)", e)
+        if not e <= mult:
+            return (t, e)
+    return None
+
+
+def lib_call(chk, key, rep, fn, *a, **k):
+    """(True, value) or (False, None) after recording a failing input when the library raises on an in-domain call"""
+    try:
+        with numpy.errstate(all="ignore"):
+            return True, fn(*a, **k)
+    except Exception as ex:
+        chk.fail("raises:%s:%s" % (key, type(ex).__name__), "%s raised %s: %s" % (rep.get("call", key), type(ex).__name__, str(ex)[:200]), rep)
+        return False, None
+
+
+def coef_container(rng, vals):
+    """the same coefficient VALUES in the containers a caller may hold them in; (object, label).  `vals` must be exactly representable
+    in the container's element type (the caller picks integers / float32-exact numbers for the narrow ones)"""
+    vals = [float(v) for v in vals]
+    integral = all(v == int(v) and abs(v) < 100 for v in vals)
+    f32 = all(float(numpy.float32(v)) == v for v in vals)
+    kinds = ["list", "tuple", "float64", "strided", "reversed", "readonly", "fortran-slice", "numpy-scalars"]
+    if integral:
+        kinds += ["int-list", "int64", "int32", "int8"]
+    if f32:
+        kinds += ["float32"]
+    k = rng.choice(kinds)
+    n = len(vals)
+    if k == "list":
+        return list(vals), k
+    if k == "tuple":
+        return tuple(vals), k
+    if k == "float64":
+        return numpy.array(vals), k
+    if k == "strided":
+        big = numpy.full(3 * n + 2, 7.25)
+        big[1::3][:n] = vals
+        return big[1::3][:n], k
+    if k == "reversed":
+        return numpy.array(vals[::-1])[::-1], k
+    if k == "readonly":
+        a = numpy.array(vals)
+        a.setflags(write=False)
+        return a, k
+    if k == "fortran-slice":
+        big = numpy.asfortranarray(numpy.full((3, n), -1.5))
+        big[1, :] = vals
+        return big[1, :], k
+    if k == "numpy-scalars":
+        return [numpy.float64(v) for v in vals], k
+    if k == "int-list":
+        return [int(v) for v in vals], k
+    if k == "float32":
+        return numpy.array(vals, dtype=numpy.float32), k
+    return numpy.array([int(v) for v in vals], dtype={"int64": numpy.int64, "int32": numpy.int32, "int8": numpy.int8}[k]), k
+
+
+def analytic_gradient(n, m, X, Y):
+    """(d/dx, d/dy) of the Noll-normalised mode (n, m) at the points (X, Y) (r > 0), from the exact coefficients of R_n^|m|"""
+    a = abs(m)
+    r, th = numpy.sqrt(X ** 2 + Y ** 2), numpy.arctan2(Y, X)
+    cf = ref_coefs(n, a)
+    R = sum(float(c) * r ** (n - 2 * i) for i, c in enumerate(cf))
+    dR = sum((float(c) * (n - 2 * i) * r ** (n - 2 * i - 1) for i, c in enumerate(cf) if n - 2 * i > 0), numpy.zeros_like(r))
+    if m == 0:
+        c, T, dT = math.sqrt(n + 1), 1.0, 0.0
+    elif m > 0:
+        c, T, dT = math.sqrt(2 * (n + 1)), numpy.cos(a * th), -a * numpy.sin(a * th)
+    else:
+        c, T, dT = math.sqrt(2 * (n + 1)), numpy.sin(a * th), a * numpy.cos(a * th)
+    return c * (dR * numpy.cos(th) * T - R / r * numpy.sin(th) * dT), c * (dR * numpy.sin(th) * T + R / r * numpy.cos(th) * dT)
+
+
+def oracle_round5(chk, quick):
+    """input classes and call histories the earlier generators never produced (see notes/asbuilt/C12.md, Round 5)"""
+    import inspect
+    from fractions import Fraction
+    import aotools
+    Z = _Z()
+    rng = chk.rng
+    APIS = apis()
+    NORMS = ["noll", "p2v", "rms"]
+
+    # ---- (1) every public spelling is the same function: then everything checked through one of them holds for all
+    for name, f in sorted(vars(Z).items()):
+        if not (inspect.isfunction(f) and f.__module__ == Z.__name__):
+            continue
+        for api, A in APIS[1:]:
+            g = getattr(A, name, None)
+            chk.oracle_cases += 1
+            chk.count("oracle:alias:%s" % api)
+            if g is f:
+                continue
+            # not the same object: allowed only if it behaves the same on a few calls
+            args = {"zernIndex": [(7,), (232,)], "zernike_noll": [(8, 9, 0.3)], "zernike_nm": [(3, -1, 9, 0.3)], "makegammas": [(4,)],
+                    "zernikeArray": [(6, 9, "rms", 0.3), ([2, 5], 8, "p2v", 0.0)], "phaseFromZernikes": [([0.0, 1.0, -2.0], 9, "rms", 0.3)],
+                    "zernikeRadialFunc": [(5, 1, numpy.array([[0.25, 0.5]]))]}.get(name, [])
+            same = g is not None and bool(args)
+            for a in (args if same else []):
+                try:
+                    with numpy.errstate(all="ignore"):
+                        same = same and numpy.array_equal(numpy.asarray(g(*a), dtype=float), numpy.asarray(f(*a), dtype=float))
+                except Exception:
+                    same = False
+            if not same:
+                chk.fail("alias:%s" % name, "%s.%s is not aotools.functions.zernike.%s (%s)" % (api, name, name, "missing" if g is None else
+                                                                                                  "another function with different results"),
+                         {"call": "%s.%s" % (api, name), "arguments": repr(args)[:300]})
+    chk.case(("oracle", "r5-alias"))
+
+    # ---- (2) radial polynomial against EXACT rational arithmetic, orders 13..40 (factorials up to 40! ~ 8e47), argument arrays of every layout;
+    #          the argument must come back untouched
+    for it in range(80 if quick else 1200):
+        n = rng.randint(13, 40) if it % 4 else rng.randint(0, 12)
+        a = rng.randrange(n % 2, n + 1, 2)
+        k = rng.randint(2, 7)
+        # radii up to 90/64: zernike_nm hands the radial function the corner pixels (r up to sqrt 2) as well
+        fr = [Fraction(rng.randint(0, 64 if rng.random() < 0.7 else 90), 64) for _ in range(2 * k - 1)] + [Fraction(1)]
+        rv = numpy.array([float(x) for x in fr])
+        lay = rng.choice(["2d", "1d", "fortran", "strided", "negative-stride", "readonly", "0d", "broadcast"])
+        if lay == "2d":
+            r = rv.reshape(2, k).copy()
+        elif lay == "1d":
+            r = rv.copy()
+        elif lay == "fortran":
+            r = numpy.asfortranarray(rv.reshape(2, k))
+        elif lay == "strided":
+            big = numpy.full((2, 2 * k + 1), 0.125)
+            big[:, 1::2] = rv.reshape(2, k)
+            r = big[:, 1::2]
+        elif lay == "negative-stride":
+            r = rv[::-1].copy()[::-1].reshape(2, k)
+        elif lay == "readonly":
+            r = rv.reshape(2, k).copy()
+            r.setflags(write=False)
+        elif lay == "0d":
+            fr = fr[:1]
+            r = numpy.array(float(fr[0]))
+        else:
+            fr = fr[:k] * 2
+            r = numpy.broadcast_to(rv[:k], (2, k))
+        keep = numpy.array(r, copy=True)
+        chk.oracle_cases += 1
+        chk.count("oracle:radial-exact:%s" % lay)
+        chk.case(("oracle", "r5-radial", n, a, lay, tuple(float(x) for x in fr[:3])), sample={"n": n, "m": a, "layout": lay} if it < 2 else None)
+        api, A = rng.choice(APIS)
+        rep = {"call": "%s.zernikeRadialFunc(%d, %d, r)" % (api, n, a), "n": n, "m": a, "r": [float(x) for x in fr], "layout": lay}
+        ok, got = lib_call(chk, "zernikeRadialFunc:%s" % lay, rep, A.zernikeRadialFunc, as_int(rng, n), as_int(rng, a), r)
+        if not ok:
+            continue
+        if not numpy.array_equal(numpy.asarray(r), keep):
+            chk.fail("pure:radial-argument", "zernikeRadialFunc(%d,%d,r) modified its argument r (%s array)" % (n, a, lay), rep)
+        got = numpy.asarray(got, dtype=float)
+        if got.shape != keep.shape:
+            chk.fail("shape:zernikeRadialFunc", "zernikeRadialFunc(%d,%d,r): r has shape %s, result %s" % (n, a, keep.shape, got.shape), rep)
+            continue
+        cf = ref_coefs(n, a)
+        for x, g in zip(fr, got.ravel()):
+            ex = sum(c * x ** (n - 2 * i) for i, c in enumerate(cf))
+            sc = float(sum(abs(c) * x ** (n - 2 * i) for i, c in enumerate(cf)))
+            err = abs(float(g) - float(ex)) if math.isfinite(float(g)) else float("inf")
+            _worst("radial-exact (eps·Σ|terms|)", err / (EPS * sc) if sc > 0 else (0.0 if err == 0 else float("inf")))
+            if not err <= R5_RADIAL_EPS * EPS * sc:
+                chk.fail("radial:exact" + (":high-order" if n > 12 else ""), "zernikeRadialFunc(%d,%d,%r) = %r, exact value %r (terms of size %.3g)"
+                         % (n, a, float(x), float(g), float(ex), sc), dict(rep, r_value=float(x), got=float(g), expected=float(ex)))
+                break
+
+    # ---- (3) modes of high radial order (13..30, Noll indices up to 496) through every mode-producing entry point, against the reference
+    for it in range(30 if quick else 400):
+        n = rng.randint(13, 30)
+        a = rng.randrange(n % 2, n + 1, 2)
+        m = a if rng.random() < 0.5 else -a
+        j = noll_of(n, m)
+        N = rng.randint(5, 26)
+        rot = rng.choice([0.0, rng.uniform(-7, 7)])
+        norm = rng.choice(NORMS)
+        api, A = rng.choice(APIS)
+        entry = rng.choice(["zernike_nm", "zernike_noll", "zernikeArray-list", "phaseFromZernikes-unit-vector"])
+        if entry == "phaseFromZernikes-unit-vector" and j > 300:
+            entry = "zernike_noll"
+        chk.oracle_cases += 1
+        chk.count("oracle:high-order:%s" % entry)
+        chk.case(("oracle", "r5-high-order", n, m, N, rot, norm, entry), sample={"n": n, "m": m, "N": N, "rot": rot, "entry": entry} if it < 2 else None)
+        if entry == "zernike_nm":
+            call, fn, args, nrm = "zernike_nm(%d,%d,%d,%r)" % (n, m, N, rot), A.zernike_nm, (as_int(rng, n), m, as_count(rng, N), rot), "noll"
+        elif entry == "zernike_noll":
+            call, fn, args, nrm = "zernike_noll(%d,%d,%r)" % (j, N, rot), A.zernike_noll, (as_int(rng, j), as_count(rng, N), rot), "noll"
+        elif entry == "zernikeArray-list":
+            call, fn, args, nrm = "zernikeArray([%d],%d,%r,%r)[0]" % (j, N, norm, rot), A.zernikeArray, ([as_int(rng, j)], N, norm, rot), norm
+        else:
+            e = [0.0] * j
+            e[j - 1] = 1.0
+            call, fn, args, nrm = "phaseFromZernikes(e_%d,%d,%r,%r)" % (j, N, norm, rot), A.phaseFromZernikes, (e, N, norm, rot), norm
+        rep = {"call": "%s.%s" % (api, call), "n": n, "m": m, "noll_index": j, "N": N, "rot": rot, "norm": nrm}
+        ok, got = lib_call(chk, entry, rep, fn, *args)
+        if not ok:
+            continue
+        got = numpy.asarray(got, dtype=float)
+        if got.ndim == 3:
+            got = got[0]
+        bad = modes_match(got[None] if got.ndim == 2 else got, [j], N, nrm, rot)
+        if bad is not None:
+            chk.fail("mode:high-order:%s" % entry, "%s is not the mode (n, m) = (%d, %d)%s: off by %.3g × eps × the size of the radial terms"
+                     % (call, n, m, "" if nrm == "noll" else " with unit " + nrm, bad[1]), rep)
+
+    # ---- (4) one LARGE count per run (Noll indices beyond 231 = radial order 21): array = reference, list = slices, vanishing outside
+    for it in range(2 if quick else 6):
+        J = rng.randint(236, 300)
+        N = rng.choice([7, 10, 13, 16])
+        norm, rot = rng.choice(NORMS), rng.choice([0.0, rng.uniform(-7, 7)])
+        api, A = rng.choice(APIS)
+        chk.oracle_cases += 1
+        chk.case(("oracle", "r5-large-count", J, N, norm, rot))
+        rep = {"call": "%s.zernikeArray(%d, %d, %r, %r)" % (api, J, N, norm, rot), "J": J, "N": N, "norm": norm, "rot": rot}
+        ok, full = lib_call(chk, "zernikeArray:large-count", rep, A.zernikeArray, as_count(rng, J), as_count(rng, N), norm, rot)
+        if not ok:
+            continue
+        picks = sorted(rng.sample(range(1, J + 1), 12) + [J, 232])
+        bad = modes_match(full[[p - 1 for p in picks]] if numpy.shape(full) == (J, N, N) else full, picks, N, norm, rot)
+        if bad is not None:
+            chk.fail("mode:large-count", "zernikeArray(%d,%d,%s,rot=%r)[%d] is not Noll mode %d (off by %.3g × eps × size of the radial terms)"
+                     % (J, N, norm, rot, picks[bad[0]] - 1 if bad[0] >= 0 else -1, picks[bad[0]] if bad[0] >= 0 else -1, bad[1]), rep)
+            continue
+        ok, sub = lib_call(chk, "zernikeArray:large-list", rep, A.zernikeArray, as_list(rng, picks), N, norm, rot)
+        if ok and not (numpy.shape(sub) == (len(picks), N, N) and all(
+                numpy.allclose(sub[t], full[p - 1], rtol=1e-12, atol=1e-12, equal_nan=True) for t, p in enumerate(picks))):
+            chk.fail("list-eq-slices:large", "zernikeArray(%r,%d,%s,rot=%r) ≠ the slices of zernikeArray(%d,…)" % (picks, N, norm, rot, J), rep)
+        idx = 2 * numpy.arange(N) + 1 - N
+        outside = (idx[None, :] ** 2 + idx[:, None] ** 2) > N * N
+        fin = numpy.isfinite(full).all(axis=(1, 2))
+        if outside.any() and numpy.abs(full[fin][:, outside]).max(initial=0.0) != 0:
+            chk.fail("vanish-outside:large", "zernikeArray(%d,%d,%s,rot=%r) is non-zero outside the pupil" % (J, N, norm, rot), rep)
+
+    # ---- (5) coefficient vectors: every container / element type / layout, exact power-of-two homogeneity (tiny and huge amplitudes),
+    #          the empty vector, long vectors
+    for it in range(40 if quick else 500):
+        N = rng.randint(4, 24)
+        J = rng.randint(1, 30) if it % 6 else rng.randint(60, 120)
+        norm, rot = rng.choice(NORMS), rng.choice([0.0, rng.uniform(-7, 7), rng.randint(-3, 3)])
+        kind = rng.choice(["integers", "float32-exact", "float64"])
+        if kind == "integers":
+            vals = [float(rng.randint(-5, 5)) for _ in range(J)]
+        elif kind == "float32-exact":
+            vals = [float(numpy.float32(rng.uniform(-2, 2))) for _ in range(J)]
+        else:
+            vals = [rng.uniform(-2, 2) for _ in range(J)]
+        if rng.random() < 0.3:
+            vals[0] = 0.0
+        if rng.random() < 0.3:
+            vals[-1] = 0.0
+        cs, label = coef_container(rng, vals)
+        api, A = rng.choice(APIS)
+        chk.oracle_cases += 1
+        chk.count("oracle:coefficients:%s" % label)
+        chk.case(("oracle", "r5-coefficients", N, J, norm, rot, label, tuple(vals[:4])), sample={"N": N, "J": J, "norm": norm, "rot": rot, "container": label} if it < 3 else None)
+        rep = {"call": "%s.phaseFromZernikes(<%s of %d coefficients>, %d, %r, %r)" % (api, label, J, N, norm, rot), "coeffs": vals, "container": label,
+               "N": N, "norm": norm, "rot": rot}
+        with numpy.errstate(all="ignore"):
+            live = all(ref_normalised(j, N, norm, rot)[2] for j in range(1, J + 1))
+        if not live:
+            chk.count("oracle:coefficients:degenerate-skipped")
+            continue
+        keep = [float(v) for v in cs]
+        ok, ph = lib_call(chk, "phaseFromZernikes:%s" % label, rep, A.phaseFromZernikes, cs, as_count(rng, N), norm, rot)
+        if not ok:
+            continue
+        if [float(v) for v in cs] != keep or keep != vals:
+            chk.fail("pure:coefficients", "phaseFromZernikes modified its coefficient argument (%s)" % label, rep)
+        refs = [ref_normalised(j, N, norm, rot) for j in range(1, J + 1)]
+        lin = sum(v * rf[0] for v, rf in zip(vals, refs))
+        S = sum(abs(v) * rf[1] for v, rf in zip(vals, refs)) + 1e-15 * max(float(abs(rf[0]).max()) for rf in refs) * sum(abs(v) for v in vals) + 1e-300
+        ph = numpy.asarray(ph, dtype=float)
+        if ph.shape != (N, N):
+            chk.fail("shape:phaseFromZernikes", "phaseFromZernikes returned shape %s for size %d" % (ph.shape, N), rep)
+            continue
+        e = float(numpy.nanmax(numpy.where(numpy.isfinite(ph), numpy.abs(ph - lin) / (EPS * S), numpy.inf)))
+        _worst("phase-vs-reference (eps·scale)", e)
+        if not e <= R5_MODE_EPS:
+            chk.fail("phase-linear:container:%s" % ("integer" if label.startswith("int") else "float32" if label == "float32" else "other"),
+                     "phaseFromZernikes(%s %r…, %d, %s, rot=%r) is not Σ c_j·Z_j (off by %.3g × eps × size of the terms)" % (label, vals[:6], N, norm, rot, e), rep)
+            continue
+        # exact homogeneity under powers of two: scaling every coefficient by 2^k scales the phase by 2^k bit for bit (no rounding involved)
+        kpow = rng.choice([-200, -60, 60, 200])
+        sc = [v * 2.0 ** kpow for v in vals]
+        ok, ph2 = lib_call(chk, "phaseFromZernikes:scaled", dict(rep, scaled_by="2**%d" % kpow), A.phaseFromZernikes, numpy.array(sc), N, norm, rot)
+        if ok and not numpy.array_equal(numpy.asarray(ph2), ph * 2.0 ** kpow):
+            chk.fail("phase-linear:scale:%s" % ("tiny" if kpow < 0 else "huge"),
+                     "phaseFromZernikes(2^%d·c, %d, %s, rot=%r) ≠ 2^%d·phaseFromZernikes(c, …) (exact for a linear map)" % (kpow, N, norm, rot, kpow),
+                     dict(rep, scaled_by="2**%d" % kpow))
+    for N in (5, 8):                                    # the empty coefficient vector is the zero phase
+        chk.oracle_cases += 1
+        rep = {"call": "phaseFromZernikes([], %d)" % N}
+        ok, ph = lib_call(chk, "phaseFromZernikes:empty", rep, Z.phaseFromZernikes, [], N)
+        if ok and not (numpy.shape(ph) == (N, N) and not numpy.any(ph)):
+            chk.fail("phase-linear:empty", "phaseFromZernikes([], %d) is not the zero phase" % N, rep)
+
+    # ---- (6) rotations of every type and size: the rotated pair is the rotation of the unrotated pair (reference-free, exact trigonometry),
+    #          through zernike_nm, zernike_noll and zernikeArray
+    for it in range(40 if quick else 400):
+        n, m = valid_nm(rng, 9)
+        if m == 0:
+            continue
+        a = abs(m)
+        N = rng.randint(4, 24)
+        kind = rng.choice(["int", "int", "float32", "float64-scalar", "0-d array", "quarter-turns", "large", "minus-zero", "tiny"])
+        rot = {"int": rng.choice([-3, -2, -1, 1, 2, 3, 6]), "float32": numpy.float32(rng.uniform(-7, 7)),
+               "float64-scalar": numpy.float64(rng.uniform(-7, 7)), "0-d array": numpy.array(rng.uniform(-7, 7)),
+               "quarter-turns": rng.randint(-8, 8) * math.pi / 2, "large": rng.uniform(-1e4, 1e4), "minus-zero": -0.0,
+               "tiny": rng.choice([1e-300, -1e-20, 5e-324])}[kind]
+        rv = float(rot)
+        jc, js_ = noll_of(n, a), noll_of(n, -a)
+        entry = rng.choice(["zernike_nm", "zernike_noll", "zernikeArray"])
+        api, A = rng.choice(APIS)
+        chk.oracle_cases += 1
+        chk.count("oracle:rotation-type:%s" % kind)
+        chk.case(("oracle", "r5-rotation", n, a, N, kind, rv, entry))
+        rep = {"call": "%s.%s with rot = %s(%r)" % (api, entry, type(rot).__name__, rv), "n": n, "m": a, "N": N, "rot": rv, "rot_type": type(rot).__name__}
+
+        def pair(r_):
+            if entry == "zernike_nm":
+                return A.zernike_nm(n, a, N, r_), A.zernike_nm(n, -a, N, r_)
+            if entry == "zernike_noll":
+                return A.zernike_noll(jc, N, r_), A.zernike_noll(js_, N, r_)
+            arr = A.zernikeArray([jc, js_], N, "noll", r_)
+            return arr[0], arr[1]
+        ok, first = lib_call(chk, "rotation:%s" % kind, rep, pair, 0)
+        ok2, second = lib_call(chk, "rotation:%s" % kind, rep, pair, rot) if ok else (False, None)
+        if not (ok and ok2):
+            continue
+        (c0, s0), (cr, sr) = first, second
+        scl = max(1.0, float(numpy.abs(c0).max()))
+        e1 = float(numpy.abs(cr - (math.cos(rv) * c0 - math.sin(rv) * s0)).max())
+        e2 = float(numpy.abs(sr - (math.cos(rv) * s0 + math.sin(rv) * c0)).max())
+        _worst("rotation-type", max(e1, e2) / scl)
+        if not max(e1, e2) <= 1e-9 * scl:                  # observed <= 2e-12 (rot up to 1e4: the angle m·θ+rot is rounded at 1e4·eps)
+            chk.fail("rotation:type:%s" % kind, "%s(n=%d, m=±%d, N=%d, rot=%s(%r)) is not the rotation by %r of the unrotated pair (errors %.3g, %.3g)"
+                     % (entry, n, a, N, type(rot).__name__, rv, rv, e1, e2), rep)
+
+    # ---- (7) call HISTORIES the earlier sequences do not contain
+    for it in range(12 if quick else 120):
+        N, norm, rot = rng.randint(4, 20), rng.choice(NORMS), rng.choice([0.0, rng.uniform(-7, 7)])
+        api, A = rng.choice(APIS)
+        L = rng.randint(1, 5)
+        calls = []
+        chk.oracle_cases += 1
+        chk.case(("oracle", "r5-history", N, norm, rot, L, it))
+        rep = {"N": N, "norm": norm, "rot": rot, "api": api, "calls": calls}
+
+        def step(desc, fn, *args):
+            calls.append(desc)
+            return lib_call(chk, "history", dict(rep, call=desc, calls=list(calls)), fn, *args)
+
+        def judge(key, arr, js, what):
+            bad = modes_match(arr, js, N, norm, rot)
+            if bad is not None:
+                chk.fail(key, "after the calls %s: %s — entry %d is not Noll mode %d (off by %.3g × eps × size of the terms)"
+                         % (calls[:-1], what, bad[0], js[bad[0]] if bad[0] >= 0 else -1, bad[1]), dict(rep, calls=list(calls)))
+            return bad is None
+        # (7a) several different index lists of ONE length for one (N, norm, rot); then the same list OBJECT with changed contents
+        lists = [[rng.randint(1, 28) for _ in range(L)] for _ in range(3)]
+        good = True
+        for js in lists:
+            cont = rng.choice([list, tuple, numpy.array])(js)
+            ok, out = step("zernikeArray(%s(%r),%d,%r,%r)" % (type(cont).__name__, js, N, norm, rot), A.zernikeArray, cont, N, norm, rot)
+            good = good and ok and judge("history:index-list:same-length", out, js, "zernikeArray(%r, …)" % (js,))
+            if not good:
+                break
+        if good:
+            obj = list(lists[0])
+            ok, out = step("L = %r; zernikeArray(L,%d,%r,%r)" % (obj, N, norm, rot), A.zernikeArray, obj, N, norm, rot)
+            obj[rng.randrange(L)] = rng.randint(29, 45)
+            ok2, out2 = step("L[:] = %r; zernikeArray(L,%d,%r,%r)" % (obj, N, norm, rot), A.zernikeArray, obj, N, norm, rot) if ok else (False, None)
+            if ok2:
+                judge("history:index-list:same-object", out2, obj, "zernikeArray(L, …) with the caller's list L changed in place between the calls")
+        # (7b) the caller overwrites what it was given, then asks again: the second answer must be the first one
+        j = rng.randint(1, 28)
+        n, m = nm_of_noll(j)
+        Jn = rng.randint(2, 10)
+        cvec = [rng.uniform(-2, 2) for _ in range(Jn)]
+        nz = rng.randint(1, 5)
+        for name, fn, args in (("zernike_noll", A.zernike_noll, (j, N, rot)), ("zernike_nm", A.zernike_nm, (n, m, N, rot)),
+                               ("zernikeArray", A.zernikeArray, (Jn, N, norm, rot)), ("zernikeArray-list", A.zernikeArray, ([j, 1, j], N, norm, rot)),
+                               ("phaseFromZernikes", A.phaseFromZernikes, (cvec, N, norm, rot)), ("makegammas", A.makegammas, (nz,)),
+                               ("zernIndex", A.zernIndex, (j,)), ("zernikeRadialFunc", A.zernikeRadialFunc, (n, abs(m), numpy.linspace(0, 1, 5).reshape(1, 5)))):
+            desc = "%s%r" % (name.split("-")[0], args if name != "zernikeRadialFunc" else (n, abs(m), "linspace(0,1,5)"))
+            ok, first = step(desc, fn, *args)
+            if not ok:
+                continue
+            if isinstance(first, list):
+                keep = list(first)
+                first[:] = [99] * len(first)
+            else:
+                keep = numpy.array(first, copy=True)
+                try:
+                    first[...] = 12345.0
+                except (ValueError, TypeError):
+                    pass                                  # a read-only result cannot be spoiled by the caller
+            ok, second = step(desc + "  [after the caller overwrote the first result]", fn, *args)
+            if not ok:
+                continue
+            same = (list(second) == keep) if isinstance(keep, list) else (numpy.shape(second) == keep.shape and numpy.array_equal(second, keep, equal_nan=True))
+            if not same:
+                chk.fail("history:result-overwritten:%s" % name, "%s returns something else after the caller overwrote the array/list returned by "
+                         "the first identical call (results share storage with internal state): calls %s" % (desc, calls), dict(rep, calls=list(calls)))
+        # (7c) one mode at sizes N1, N2, N1 and as cosine, sine, cosine: the third answer is the first, bit for bit
+        n, m = valid_nm(rng, 8)
+        N2 = N + rng.randint(1, 6)
+        seqs = [(n, m, N, rot), (n, m, N2, rot), (n, -m, N, rot), (n, m, N, rot)]
+        outs = []
+        for a_ in seqs:
+            ok, o = step("zernike_nm%r" % (a_,), A.zernike_nm, *a_)
+            outs.append(numpy.array(o, copy=True) if ok else None)
+        if all(o is not None for o in outs):
+            jn = noll_of(n, m)
+            okm = True
+            for a_, o in zip(seqs, outs):
+                bad = modes_match(o[None], [noll_of(a_[0], a_[1])], a_[2], "noll", rot)
+                if bad is not None:
+                    okm = False
+                    chk.fail("history:size-and-sign", "in the call sequence %s, zernike_nm%r is not that mode (off by %.3g × eps × size of the terms)"
+                             % (calls[-4:], a_, bad[1]), dict(rep, calls=list(calls)))
+                    break
+            if okm and not numpy.array_equal(outs[0], outs[3]):
+                chk.fail("history:size-and-sign", "zernike_nm%r differs from the same call made three calls earlier (%s)" % (seqs[0], calls[-4:]),
+                         dict(rep, calls=list(calls)))
+
+    # ---- (9) documented defaults (norm="noll", rot=0) and keyword-only spellings, every entry point, against the reference
+    for it in range(6 if quick else 60):
+        N, J = rng.randint(4, 20), rng.randint(2, 12)
+        js = [rng.randint(1, 28) for _ in range(3)]
+        norm, rot = rng.choice(["p2v", "rms"]), rng.uniform(-7, 7)
+        cvec = [rng.uniform(-2, 2) for _ in range(J)]
+        api, A = rng.choice(APIS)
+        chk.oracle_cases += 1
+        chk.case(("oracle", "r5-defaults", N, J, tuple(js), norm, rot))
+        allj = list(range(1, J + 1))
+        for desc, fn, args, kw, idx, nrm, rt in (
+                ("zernikeArray(%d,%d)" % (J, N), A.zernikeArray, (J, N), {}, allj, "noll", 0.0),
+                ("zernikeArray(%r,%d)" % (js, N), A.zernikeArray, (js, N), {}, js, "noll", 0.0),
+                ("zernikeArray(%d,%d,rot=%r)" % (J, N, rot), A.zernikeArray, (J, N), {"rot": rot}, allj, "noll", rot),
+                ("zernikeArray(%r,%d,norm=%r)" % (js, N, norm), A.zernikeArray, (js, N), {"norm": norm}, js, norm, 0.0),
+                ("zernikeArray(J=%d,N=%d,rot=%r,norm=%r)" % (J, N, rot, norm), A.zernikeArray, (), {"J": J, "N": N, "rot": rot, "norm": norm}, allj, norm, rot),
+                ("zernike_noll(%d,%d)" % (js[0], N), A.zernike_noll, (js[0], N), {}, js[:1], "noll", 0.0),
+                ("zernike_noll(j=%d,N=%d,rot=%r)" % (js[1], N, rot), A.zernike_noll, (), {"j": js[1], "N": N, "rot": rot}, js[1:2], "noll", rot),
+                ("zernike_nm(%d,%d,%d)" % (nm_of_noll(js[2]) + (N,)), A.zernike_nm, nm_of_noll(js[2]) + (N,), {}, js[2:3], "noll", 0.0),
+                ("phaseFromZernikes(c,%d)" % N, A.phaseFromZernikes, (cvec, N), {}, None, "noll", 0.0),
+                ("phaseFromZernikes(c,%d,rot=%r)" % (N, rot), A.phaseFromZernikes, (cvec, N), {"rot": rot}, None, "noll", rot),
+                ("phaseFromZernikes(zCoeffs=c,size=%d,norm=%r)" % (N, norm), A.phaseFromZernikes, (), {"zCoeffs": cvec, "size": N, "norm": norm}, None, norm, 0.0)):
+            rep = {"call": "%s.%s" % (api, desc), "N": N, "coeffs": cvec if idx is None else None, "expected_norm": nrm, "expected_rot": rt}
+            chk.count("oracle:defaults")
+            ok, out = lib_call(chk, "defaults", rep, fn, *args, **kw)
+            if not ok:
+                continue
+            if idx is not None:
+                out = numpy.asarray(out, dtype=float)
+                bad = modes_match(out[None] if out.ndim == 2 else out, idx, N, nrm, rt)
+                if bad is not None:
+                    chk.fail("defaults:%s" % desc.split("(")[0], "%s is not the mode(s) %r with norm=%r, rot=%r (the documented defaults are norm='noll', rot=0): "
+                             "off by %.3g × eps × size of the terms" % (desc, idx, nrm, rt, bad[1]), rep)
+            else:
+                refs = [ref_normalised(j, N, nrm, rt) for j in allj]
+                if not all(r_[2] for r_ in refs):
+                    continue
+                lin = sum(v * r_[0] for v, r_ in zip(cvec, refs))
+                S = sum(abs(v) * r_[1] for v, r_ in zip(cvec, refs)) + 1e-300
+                e = float(numpy.max(numpy.abs(numpy.asarray(out, dtype=float) - lin) / (EPS * S))) if numpy.shape(out) == (N, N) else float("inf")
+                if not e <= R5_MODE_EPS:
+                    chk.fail("defaults:phaseFromZernikes", "%s is not Σ c_j·Z_j with norm=%r, rot=%r (the documented defaults are norm='noll', rot=0): "
+                             "off by %.3g × eps × size of the terms" % (desc, nrm, rt, e), rep)
+
+    # ---- (8) gamma matrices BEYOND radial order 12 (not covered by the kernel-checked tables): the analytic x/y gradient of every mode
+    #          (exact coefficients) against Σ_j gamma_ij · generated mode j at the pixel centres of a small grid
+    orders = ([rng.randint(13, 20), rng.randint(1, 12)] if quick else list(range(13, 25)) + [rng.randint(1, 12)])
+    for nzrad in orders:
+        chk.oracle_cases += 1
+        chk.count("oracle:gamma-analytic:%s" % ("<=12" if nzrad <= 12 else ">12"))
+        chk.case(("oracle", "r5-gamma", nzrad))
+        arg = as_count(rng, nzrad)
+        rep = {"call": "makegammas(%s(%d))" % (type(arg).__name__, nzrad), "nzrad": nzrad}
+        ok, g = lib_call(chk, "makegammas", rep, Z.makegammas, arg)
+        if not ok:
+            continue
+        nz = (nzrad + 1) * (nzrad + 2) // 2
+        if numpy.shape(g) != (2, nz, nz):
+            chk.fail("gamma:shape", "makegammas(%d).shape = %s, expected (2,%d,%d)" % (nzrad, numpy.shape(g), nz, nz), rep)
+            continue
+        g = numpy.asarray(g, dtype=float)
+        N = rng.choice([15, 16, 19, 20])
+        Zs = Z.zernikeArray(nz, N)
+        co = (2 * numpy.arange(N) + 1 - N) / float(N)
+        X, Y = numpy.meshgrid(co, co)
+        ins = (X ** 2 + Y ** 2 <= 1.0) & (X ** 2 + Y ** 2 > 0.01)
+        px, py = numpy.tensordot(g[0], Zs, 1), numpy.tensordot(g[1], Zs, 1)
+        scl = max(1.0, float(abs(g).max()) * float(abs(Zs).max()))
+        worst = (0.0, None)
+        for j in range(1, nz + 1):
+            n, m = nm_of_noll(j)
+            gx, gy = analytic_gradient(n, m, X, Y)
+            for name, d, p_ in (("x", gx, px[j - 1]), ("y", gy, py[j - 1])):
+                e = float(abs((d - p_)[ins]).max())
+                if not e <= worst[0]:
+                    worst = (e, (name, j, n, m))
+        _worst("gamma-analytic", worst[0] / scl)
+        if not worst[0] <= R5_GAMMA_TOL * scl:
+            name, j, n, m = worst[1]
+            chk.fail("gamma:%s%s" % (name, ":high-order" if n > 12 else ""), "∂%s Z_%d (n=%d, m=%d) ≠ Σ_j gam%s[%d,j]·Z_j for makegammas(%d): max deviation %r on a %d-grid "
+                     "(analytic gradient from the exact radial coefficients)" % (name, j, n, m, name, j - 1, nzrad, worst[0], N),
+                     dict(rep, N=N, mode=j, axis=name, err=worst[0]))
+    chk.notes.append("round-5 sections, largest observed / allowed: " + ", ".join("%s %.3g" % kv for kv in sorted(WORST.items())))
+
+
 def run(chk):
     quick = chk.tier == "quick"
+    WORST.clear()
     chk.rule = ("correspondence: Noll indices exact (exhaustive to 1e5 quick / 1e6 thorough + block boundaries up to 2^49, both the Nat.sqrt "
                 "model and the literal binary64 formula); radial values |impl-model| <= 1e-11·Σ|terms|; pixels/arrays/phases <= 1e-9·max(1,|impl|); "
                 "gamma entries <= 1e-6·scale (float32 storage). oracle on the real code: Noll bijection/order/parity exhaustively, explicit "
@@ -779,7 +1422,21 @@ def run(chk):
                 "zernIndex through every public spelling and numpy.int32/int64 scalars = the Python-int answer; "
                 "gamma identity against an exact stencil derivative <= 1e-5·scale. correspondence also: the exact-rational degeneracy table "
                 "(j <= 28, N <= 12) = thresholded implementation (max-min > 1e-6, Σv² > 1e-12) = exclusion lists of the theorems; "
-                "int(numpy.round(J)), int(numpy.round(N)) of dyadic float counts incl. exact ties. distinct = distinct argument tuples")
+                "int(numpy.round(J)), int(numpy.round(N)) of dyadic float counts incl. exact ties. distinct = distinct argument tuples. "
+                "ROUND 5 (generator audit) — an oracle-side reference mode (exact integer radial coefficients, pixel coordinates (2i+1-N)/N, "
+                "integer-geometry pupil, Noll constants) shares nothing with the module: |mode - reference| <= 256·eps·c·Σ|c_i|r^(n-2i) per pixel "
+                "(observed <= 0.9); zernikeRadialFunc vs exact rational arithmetic at dyadic radii (orders to 40, radii to 90/64, every array layout) "
+                "<= 128·eps·Σ|terms| (observed <= 1.5), argument untouched; modes of radial order 13..30 through zernike_nm / zernike_noll / "
+                "zernikeArray([j]) / phaseFromZernikes(e_j); one count of 236..300 modes per run; zernikeArray = stack of zernike_noll "
+                "(Noll: bit-identical; p2v / rms: 1e-12, observed 0); coefficient vectors as list / tuple / float64 / float32 / int8..64 / "
+                "strided / reversed / read-only / Fortran-slice / numpy-scalar lists, long (60..120) and empty, phase(2^k c) = 2^k phase(c) "
+                "bit for bit (k = ±60, ±200); rotations as Python int / float32 / numpy.float64 / 0-d array / quarter turns / up to 1e4 / "
+                "-0.0 / denormal <= 1e-9 (observed <= 1e-12); counts and sizes as uint32/uint64 scalars and 0-d arrays, index lists as "
+                "int16..uint64 arrays, strided / reversed views, read-only; keyword / positional / default-omitted spellings and the "
+                "documented defaults; package-level names are the same function objects; histories: several index lists of one length, the "
+                "same list object changed in place, results overwritten by the caller before the same call is repeated (all eight "
+                "functions), one mode at sizes N1 N2 N1 and as cos / sin / cos; gamma matrices of radial order 13..20 (thorough ..24) "
+                "against the analytic gradient from the exact coefficients <= 1e-5·scale (observed <= 1.6e-7, float32 storage)")
     chk.assumptions = [
         "orthonormality of the modes for ALL orders and 'Gram matrix -> identity as the grid is refined' are not proved (no Jacobi-polynomial "
         "theory in Mathlib): proved radial orthogonality over R for n,n' <= 10 (radial_integral + kernel-checked table) + numeric oracle "
@@ -790,7 +1447,9 @@ def run(chk):
         "modes of radial order <= 12 only: the polynomial identity dP_i = sum g_ij P_j is a kernel-checked TABLE (nzrad 8 and 12); for every "
         "nzrad the derivative claim is reduced to that decidable table (gamma_dx_of_table, gamma_dy_of_table), the bridge (modeCart = c * "
         "eval(zernPoly), Poly.dx/dy = partial derivatives of Poly.eval, gamx/gamy_cleared, gammaNM_noll) holding for all orders; orders > 12 "
-        "are NOT proved (Noll's recurrence for general n is missing) and not exercised (oracle with an exact stencil derivative to nzrad 8 / 12)",
+        "are NOT proved (Noll's recurrence for general n is missing); they are EXERCISED only: oracle with an exact stencil derivative to "
+        "nzrad 8 / 12 and (round 5) with the analytic gradient from the exact radial coefficients for one random nzrad in 13..20 per quick run, "
+        "all of 13..24 in the thorough tier",
         "binary64: the square root is assumed correctly rounded hence monotone, exact on integers, relative error <= 2^-53 (hypotheses of "
         "zernIndex_float_agrees; '-1.+s' and '/2.' are exact for a binary64 s >= 1); rounding elsewhere is not modelled",
         "the polar form cos(m*atan2(y,x)+rot) of the code is tied to the Cartesian polynomial model by theorem mode_polar for points given in "
@@ -805,8 +1464,12 @@ def run(chk):
         "the count path's int(numpy.round(.)) is modelled for non-negative rational counts (npRound: nearest, ties to even; "
         "count_float_integral: integral floats = the integer call) and exercised with dyadic floats; negative or non-finite counts are "
         "outside the domain",
-        "numpy integer scalars narrower than 32 bits are not generated (8*(j-1)+1 wraps for numpy.int16 j > 4096 under NumPy 2 promotion; "
-        "numpy.int32 only below 2^26); index lists are given as list / tuple / int64 array / list of numpy scalars",
+        "numpy integer SCALARS narrower than 32 bits are not generated (8*(j-1)+1 wraps for numpy.int16 j > 4096 under NumPy 2 promotion; "
+        "numpy.int32 / uint32 only below 2^26); generated: Python int, int32, int64, intp, uint32, uint64, 0-d int64 arrays; index lists as "
+        "list / tuple / list of numpy scalars / arrays of int16, uint16, int32, uint32, int64, uint64 (indices <= 28 there), strided, "
+        "reversed and read-only views",
+        "coefficient vectors of element type float32 / int8..int64 are taken at their exact values (the phase is computed in binary64); "
+        "a float32 ROTATION is taken at its exact binary64 value",
         "statefulness is sampled, not proved: the model is a pure function, the oracle runs call sequences over all orders of the three "
         "normalisations for one (J, N, rot) and checks earlier results bit-for-bit after later calls",
     ]
@@ -824,3 +1487,8 @@ def run(chk):
     else:
         chk.broke("correspondence", "the implementation's mode functions raise; correspondence cannot run")
     oracle(chk, quick)
+    try:
+        _Z().zernike_noll(1, 4)
+    except Exception:
+        return
+    oracle_round5(chk, quick)
